@@ -13,6 +13,18 @@ use std::sync::Mutex;
 pub const VERIF_ROOT: &str = "/verif";
 pub const SHARDS: u64 = 16;
 
+/// true while stored cases are replayed (replay tier / --replay): generators must then NOT steer away from
+/// known findings, so that a listed finding still reproduces with its signature
+pub static STRICT_REPLAY: std::sync::atomic::AtomicBool = std::sync::atomic::AtomicBool::new(false);
+pub fn strict_replay() -> bool {
+    STRICT_REPLAY.load(std::sync::atomic::Ordering::Relaxed)
+}
+/// signature recorded in the replay file being replayed (generators stop avoiding exactly that finding)
+pub static STRICT_SIG: Mutex<String> = Mutex::new(String::new());
+pub fn strict_sig_contains(part: &str) -> bool {
+    strict_replay() && STRICT_SIG.lock().map(|s| s.contains(part)).unwrap_or(false)
+}
+
 /// where evidence and replay files are written (default /verif; mutant runs redirect it)
 pub fn out_root() -> PathBuf {
     PathBuf::from(std::env::var("VERIF_OUT").unwrap_or_else(|_| VERIF_ROOT.to_string()))
@@ -591,6 +603,7 @@ fn replay_tier(prop: &Property, rep: &mut Report) {
             continue;
         };
         n += 1;
+        *STRICT_SIG.lock().unwrap() = rf.signature.clone().unwrap_or_default();
         match sub.replay(&rf.case) {
             Err(e) => eprintln!("infrastructure: cannot decode case in {}: {e}", f.display()),
             Ok(Ok(())) => {}
@@ -618,7 +631,9 @@ pub fn run_property(prop: Property, ctx: &Ctx) -> i32 {
     for a in prop.assumptions {
         rep.assume(a);
     }
+    STRICT_REPLAY.store(true, std::sync::atomic::Ordering::Relaxed);
     replay_tier(&prop, &mut rep);
+    STRICT_REPLAY.store(false, std::sync::atomic::Ordering::Relaxed);
     let only = std::env::var("VERIF_SUB").ok();
     for s in &prop.subs {
         if let Some(o) = &only {
@@ -632,6 +647,7 @@ pub fn run_property(prop: Property, ctx: &Ctx) -> i32 {
 }
 
 pub fn replay_file(prop: Property, path: &str) -> i32 {
+    STRICT_REPLAY.store(true, std::sync::atomic::Ordering::Relaxed);
     let text = match std::fs::read_to_string(path) {
         Ok(t) => t,
         Err(e) => {
@@ -650,6 +666,7 @@ pub fn replay_file(prop: Property, path: &str) -> i32 {
         eprintln!("unknown sub-check {}", rf.sub);
         return 2;
     };
+    *STRICT_SIG.lock().unwrap() = rf.signature.clone().unwrap_or_default();
     match sub.replay(&rf.case) {
         Err(e) => {
             eprintln!("cannot decode case: {e}");
